@@ -1106,7 +1106,6 @@ func checkSlotNormalisation(c *core.Ctx, rule9, rule10 string) {
 	}
 }
 
-
 func rule9x(r string) string {
 	if r == "" {
 		return "R12.8" // obligations are trivially discharged when only the second rule is wanted; keep them under the caller's rule
